@@ -12,11 +12,12 @@ TECHNIQUE = ('fault enumeration over real processes: a forked child SIGKILLs its
 RULE = ('cases: scenario in {blocking acquire/release, timed acquire, with, acquire_ctx, reentrant nested depth 2 + re-acquire, '
         'acquire while another descriptor holds the lock (polling), holder that spawned a helper process while holding, every unsuccessful way out of acquire, and blocking/timed/nested use of an object inherited through fork() from a live supervisor process that had used it before} x crash index N = 1..M (M = number of line events of '
         'aiuti/filelock.py the scenario executes on the current tree, measured by a counting run) x 0-2 contender processes; '
-        'contenders keep going (timed / blocking / acquire_ctx rounds; the timed ones with their last poll sleep straddling the deadline) until the victim has been reaped, do three more rounds and then stay alive, idle, while a fresh FileLock probes the lock; non-trivial: the child was killed while is_locked was true or inside _acquire/_release/acquire/release; '
+        'contenders keep going (timed / blocking / acquire_ctx rounds; the timed ones with their last poll sleep straddling the deadline; every fifth round a blocking acquire that is left by a KeyboardInterrupt injected into flock() exactly when flock() would have had to wait, followed by the ordinary retry on the same object) until the victim has been reaped, do three more rounds and then stay alive, idle, while a fresh FileLock probes the lock; non-trivial: the child was killed while is_locked was true or inside _acquire/_release/acquire/release; '
         'distinct by (scenario, N, contenders)')
 ASSUMPTIONS = ['Linux flock semantics (descriptors are closed by the kernel before the parent reaps the child)',
                'wall-clock is only a hang guard (15 s); the verdict comes from the deterministic non-blocking probe',
-               'the Windows branch is not executable here']
+               'the Windows branch is not executable here',
+               'an interrupted wait is injected at the flock() call (no lock taken, a non-OSError propagates), not through a real signal: a real signal could also land after flock() returned, which is a different event']
 BUDGET = {'quick': 0, 'thorough': 0}
 SHARDS = {'quick': 16, 'thorough': 16}
 ENUM_EXHAUSTIVE = {'quick': 'every crash index of every scenario with 0 contenders; every 3rd index with 1 contender, every 4th with 2',
@@ -101,6 +102,8 @@ def run_case(case):
     cl = ['scenario=' + case['scenario'], 'contenders=%d' % case['contenders']] + (['nontrivial'] if nt else [])
     if info.get('locked'):
         cl.append('killed-while-locked')
+    if any(s.get('interrupts') for s in surv):
+        cl.append('survivor-interrupted-while-waiting')
     return Result(viol, nt, cl, {'killed_in': info, 'probe_ok': r['probe_ok'], 'probe_wait_s': round(r['probe_wait_s'], 5),
                                  'survivors': surv})
 
